@@ -214,7 +214,7 @@ def gen_content(rng, size):
     return bytes(out[:size])
 
 
-def gen_population(rng, cfg, workdir, scale=1.0, big_dir=None, late_dirs=0, deep_extents=False):
+def gen_population(rng, cfg, workdir, scale=1.0, big_dir=None, late_dirs=0, deep_extents=False, special_xattrs=False):
     """A debugfs -w script (list of command strings) that populates a fresh filesystem, plus the
     host files it reads.  Returns (commands, description)."""
     feats = set(cfg["features"])
@@ -282,6 +282,8 @@ def gen_population(rng, cfg, workdir, scale=1.0, big_dir=None, late_dirs=0, deep
             tlen = rng.weighted([(rng.range(1, 59), 5), (rng.range(60, 200), 3), (rng.range(200, min(bs - 1, 1000)), 1)])
             target = "".join(NAME_CHARS[rng.below(len(NAME_CHARS))] for _ in range(tlen))
             cmds.append('symlink "%s" "%s"' % (path, target))
+            if special_xattrs and "ext_attr" in feats and rng.chance(0.5):
+                cmds.append('ea_set -f "%s" "%s" "trusted.sx%d"' % (host(rng.bytes(rng.choice([8, 120, 300]))), path, rng.below(100)))
         elif kind == "node":
             t = rng.choice(["p", "c", "b"])
             # debugfs mknod takes a name in the current directory, not a path
@@ -291,6 +293,9 @@ def gen_population(rng, cfg, workdir, scale=1.0, big_dir=None, late_dirs=0, deep
             else:
                 cmds.append('mknod "%s" %s %d %d' % (name, t, rng.below(256), rng.below(256)))
             cmds.append('cd /')
+            if special_xattrs and "ext_attr" in feats and rng.chance(0.6):
+                # objects without data blocks can still own an xattr block
+                cmds.append('ea_set -f "%s" "%s" "security.sx%d"' % (host(rng.bytes(rng.choice([8, 150, 400]))), path, rng.below(100)))
         elif kind == "hardlink":
             src = rng.choice(files)
             # debugfs ln does not grow a full directory; make room first
@@ -393,7 +398,7 @@ def fsck_status_ok_for_repair(status):
 
 
 def build_world(rng, workdir, cfg=None, scale=1.0, big_dir=None, small=False, want=None, avoid=(), name="img",
-                rehash=None, late_dirs=0, deep_extents=False):
+                rehash=None, late_dirs=0, deep_extents=False, special_xattrs=False):
     """mkfs + populate (+ optional e2fsck -fyD to index directories).  Returns dict or None when mke2fs
     rejected the configuration or population failed in a way that leaves nothing to test."""
     if cfg is None:
@@ -402,7 +407,8 @@ def build_world(rng, workdir, cfg=None, scale=1.0, big_dir=None, small=False, wa
     r = mkfs(cfg, img, workdir, rand_seed=rng.u64() >> 1)
     if r.status != 0 or r.san:
         return {"cfg": cfg, "img": img, "rejected": True, "mkfs": r}
-    cmds, desc = gen_population(rng, cfg, workdir, scale=scale, big_dir=big_dir, late_dirs=late_dirs, deep_extents=deep_extents)
+    cmds, desc = gen_population(rng, cfg, workdir, scale=scale, big_dir=big_dir, late_dirs=late_dirs, deep_extents=deep_extents,
+                                special_xattrs=special_xattrs)
     pr = debugfs_script(img, cmds, workdir, tag="pop", rand_seed=rng.u64() >> 1)
     if rehash is None:
         rehash = rng.chance(0.4)
